@@ -252,6 +252,12 @@ def _run_lines(exe, mode, lines, timeout, extra_args=()):
     if not lines:
         return []
     if exe == FRH:
+        d = os.environ.get("VERIF_DUMP_LINES")      # development aid: keep the inputs fed to the real crate (coverage measurement)
+        if d:
+            import threading
+            os.makedirs(d, exist_ok=True)
+            with open(os.path.join(d, "%s.%d.%d.txt" % (mode, os.getpid(), threading.get_ident())), "a") as fh:
+                fh.write("\n".join(lines) + "\n")
         return _run_lines_watch(exe, mode, lines, extra_args)
     p = subprocess.run([exe, mode, *extra_args], input="\n".join(lines) + "\n", stdout=subprocess.PIPE,
                        stderr=subprocess.PIPE, text=True, timeout=timeout, env=ENV)
